@@ -515,7 +515,7 @@ type RCase struct {
 var propRace = hx.Prop[RCase]{
 	ID: pid, Name: "racing",
 	Rule: "5-25 messages are delivered to one mailbox (mem with cap/size limit, or file), then 3-8 goroutines at once remove every id in " +
-		"order, in reverse, purge the mailbox, or keep delivering (cap/size evictions): however the removals of one message overlap, " +
+		"order, in reverse, purge the mailbox, keep delivering (cap/size evictions), or mark every message seen: however the removals of one message overlap, " +
 		"the conservation oracle must hold after quiescence - in particular each message's deleted event exactly once; non-trivial = at " +
 		"least two workers remove the same ids",
 	Quick: 60, Thorough: 600,
@@ -524,7 +524,7 @@ var propRace = hx.Prop[RCase]{
 		if c.Backend == "mem" {
 			c.MaxKB = rapid.SampledFrom([]int{0, 0, 4}).Draw(t, "maxkb")
 		}
-		c.Workers = rapid.SliceOfN(rapid.SampledFrom([]int{0, 0, 0, 1, 1, 2, 3}), 3, 8).Draw(t, "workers")
+		c.Workers = rapid.SliceOfN(rapid.SampledFrom([]int{0, 0, 0, 1, 1, 2, 3, 4, 4}), 3, 8).Draw(t, "workers")
 		return c
 	},
 	Run: func(c RCase) *hx.Outcome {
@@ -592,6 +592,12 @@ var propRace = hx.Prop[RCase]{
 				case 3:
 					for i := 0; i < 5; i++ {
 						deliver()
+					}
+				case 4:
+					// a reader opening the messages one after the other: emits nothing, but rewrites
+					// the mailbox's record of what it holds while the others change it
+					for _, id := range ids {
+						_ = w.Store.MarkSeen("race", id)
 					}
 				}
 			}(kind)
